@@ -93,6 +93,25 @@ class Injected(Exception):
         self.at = at  # argument tuple, when the failure is allocated per invocation (map items)
 
 
+class InjectedTypeError(Injected, TypeError):
+    pass
+
+
+class InjectedKeyError(Injected, KeyError):
+    pass
+
+
+class InjectedValueError(Injected, ValueError):
+    pass
+
+
+class InjectedRuntimeError(Injected, RuntimeError):
+    pass
+
+
+INJECTED_KINDS = {None: Injected, "plain": Injected, "type": InjectedTypeError, "key": InjectedKeyError, "value": InjectedValueError, "runtime": InjectedRuntimeError}
+
+
 class Ctx:
     """Per-case build context: call log, injected exception objects, optional scheduler."""
 
@@ -165,7 +184,8 @@ def make_func(ctx: Ctx, spec: dict, flavour: str):
     coro_def = is_async and bool(spec.get("coro_def"))  # plain `def` that returns a coroutine (awaited by the executor)
     fail = spec.get("fail")
     table = spec.get("table")
-    injected = ctx.injected.setdefault(fid, Injected(fid, empty=bool(spec.get("fail_empty"))))
+    InjectedCls = INJECTED_KINDS[spec.get("fail_exc")]  # the node body raises an ordinary built-in exception type (TypeError, KeyError, ...)
+    injected = ctx.injected.setdefault(fid, InjectedCls(fid, empty=bool(spec.get("fail_empty"))))
 
     expr = spec.get("expr")
     code = compile(expr, f"<expr {fid}>", "eval") if expr is not None else None
@@ -218,7 +238,7 @@ def make_func(ctx: Ctx, spec: dict, flavour: str):
             hook(a)
         if _should_fail(fail, a):
             if spec.get("fail_per_args"):
-                raise ctx.injected.setdefault((fid, a), Injected(fid, a))
+                raise ctx.injected.setdefault((fid, a), InjectedCls(fid, a))
             raise injected
 
     if is_async and spec.get("agen"):
